@@ -200,6 +200,11 @@ def ac_shuffle(e, rng):
 
 
 def gen_expr(rng, names, depth=2):
+    if depth >= 2 and rng.random() < 0.2:
+        # sum of products / product of sums: compound operands whose own spelling can be commuted
+        outer, inner = rng.choice([("Add", "Mult"), ("Mult", "Add")])
+        leaf = lambda: ("var", rng.choice(names)) if rng.random() < 0.6 else ("const", rng.randint(1, 5))
+        return ("bin", outer, ("bin", inner, leaf(), leaf()), ("bin", inner, leaf(), leaf()))
     if depth == 0 or rng.random() < 0.25:
         return ("var", rng.choice(names)) if rng.random() < 0.7 else ("const", rng.randint(0, 3))
     r = rng.random()
@@ -272,6 +277,38 @@ def gen_var(rng, allow_ctx=True):
             vals.append(1.0)
         return {"values": vals} if rng.random() < 0.5 else vals
     return {"from_context": rng.choice(KEYS)}
+
+
+def type_twin(nodes):
+    """A DIFFERENT configuration that is ==-equal value by value: numeric sweep sequence values switch
+    between int and float spelling (1.0 <-> 1).  Used as prior history: nothing computed for the twin may
+    leak into the identities of the configuration itself."""
+    import copy
+    tw = copy.deepcopy(nodes)
+    changed = False
+    for n in tw:
+        sw = (n.get("derive") or {}).get("parameter_sweep")
+        if not sw:
+            continue
+        for v, spec in list(sw.get("variables", {}).items()):
+            vals = spec if isinstance(spec, list) else (spec.get("values") if isinstance(spec, dict) else None)
+            if not isinstance(vals, list):
+                continue
+            new = []
+            for x in vals:
+                if isinstance(x, bool):
+                    new.append(x)
+                elif isinstance(x, float) and x == int(x):
+                    new.append(int(x)); changed = True
+                elif isinstance(x, int):
+                    new.append(float(x)); changed = True
+                else:
+                    new.append(x)
+            if isinstance(spec, list):
+                sw["variables"][v] = new
+            else:
+                spec["values"] = new
+    return tw if changed else None
 
 
 def gen_sweep(rng, proc, kind):
